@@ -71,6 +71,19 @@ example : transform (fun _ => false) (printES5 (.seq (.ch (.lit 97)) (.look fals
 /-- Dev `backref_octal`: `\1` followed by `0` is not rejected but becomes the octal escape `\x08` -/
 example : transform (fun _ => false) [40, 97, 41, 92, 49, 48] = .ok [40, 97, 41, 92, 120, 48, 56] := by decide
 
+/-- the empty classes are in the proved subset: `[]` ↦ `[^\x00-\x{10FFFF}]`, `[^]` ↦ `[\x00-\x{10FFFF}]` -/
+example : transform (fun _ => false) (printES5 (.alt (.set false []) (.set true []))) =
+    .ok (printGo (.alt (.set false []) (.set true []))) := transform_syntax _ _ (by decide)
+
+/-- **flags_eq.**  The flag scanner of newRegExpObject is §15.10.4.1: each of g, i, m at most once,
+    nothing else; otherwise SyntaxError (`none`). -/
+theorem flags_eq : ∀ (fl : List Nat) (g i mm : Bool), Model.parseFlags fl g i mm = Spec.parseFlags fl g i mm := by
+  intro fl; induction fl with
+  | nil => intro g i mm; rfl
+  | cons c cs ih =>
+    intro g i mm
+    simp only [Model.parseFlags, Spec.parseFlags, ih]
+
 /-! ## 2. denotation of the atoms in the two dialects -/
 
 
@@ -197,21 +210,12 @@ theorem search_end_to_end (i mm : Bool) (r : Re) (t : List Nat) (hasc : ascii t)
 /-- Dev `exec_substring`: /^a/g, lastIndex = 1, exec("aa") – the cut string starts with "a" -/
 example : Model.run (charEngine (dG false false) (.seq .bol (.ch (.lit 97)))) [97, 97] ⟨true, .int 0⟩ [.setLI (.int 1), .exec]
     ≠ Spec.run (es5Eng (dE false false) (.seq .bol (.ch (.lit 97)))) [97, 97] id ⟨true, .int 0⟩ [.setLI (.int 1), .exec] := by decide
-/-- Dev `match_global`: "b".match(/a/g) is undefined, not null -/
-example : Model.run (charEngine (dG false false) (.ch (.lit 97))) [98] ⟨true, .int 0⟩ [.mtch]
-    ≠ Spec.run (es5Eng (dE false false) (.ch (.lit 97))) [98] id ⟨true, .int 0⟩ [.mtch] := by decide
-/-- Dev `replace_global_lastindex`: "ba".replace(/a/g,"x") leaves lastIndex 2 -/
-example : Model.run (charEngine (dG false false) (.ch (.lit 97))) [98, 97] ⟨true, .int 0⟩ [.replaceS [120]]
-    ≠ Spec.run (es5Eng (dE false false) (.ch (.lit 97))) [98, 97] id ⟨true, .int 0⟩ [.replaceS [120]] := by decide
+/-- Dev `match_global_lastindex`: after "ba".match(/a/g) lastIndex is 2, not 0 -/
+example : Model.run (charEngine (dG false false) (.ch (.lit 97))) [98, 97] ⟨true, .int 0⟩ [.mtch]
+    ≠ Spec.run (es5Eng (dE false false) (.ch (.lit 97))) [98, 97] id ⟨true, .int 0⟩ [.mtch] := by decide
 /-- Dev `empty_adjacent`: "abc".split is fine but "abc".match(/b*/g) loses the empty match after "b" -/
 example : (Model.builtinStringMatch (charEngine (dG false false) (.quant (.ch (.lit 98)) .star false)) ⟨true, .int 0⟩ [97, 98, 99]).2
     ≠ (Spec.stringMatch (es5Eng (dE false false) (.quant (.ch (.lit 98)) .star false)) ⟨true, .int 0⟩ [97, 98, 99]).2 := by decide
-/-- Dev `subst_two_digit` (expansion only): with ten groups "$10" is group 1 followed by "0" -/
-example : Model.expand [97, 98] [some (0, 2), some (0, 1), none, none, none, none, none, none, none, none, some (1, 2)] [36, 49, 48]
-    ≠ Spec.expand [97, 98] [some (0, 2), some (0, 1), none, none, none, none, none, none, none, none, some (1, 2)] [36, 49, 48] := by decide
-/-- Dev `flags_unknown`: flags "x" -/
-example : Model.parseFlags [120] false false false ≠ Spec.parseFlags [120] false false false := by decide
-
 /-- non-vacuity of exec_end_to_end: /a+?b|c/ on "xaabc" -/
 example : (Re.alt (.seq (.quant (.ch (.lit 97)) .plus true) (.ch (.lit 98))) (.ch (.lit 99))).simpleLoops = true ∧
     noLeftCtx (Re.alt (.seq (.quant (.ch (.lit 97)) .plus true) (.ch (.lit 98))) (.ch (.lit 99))) = true := by decide
@@ -221,26 +225,16 @@ example : ascii [120, 97, 97, 98, 99] := by intro b hb; simp at hb; omega
 section
 open OttoVerif OttoVerif.C10.Driver
 
-/-- Dev `lastindex_bytes`: /a/g.exec("\u00e9a") leaves lastIndex 3 (bytes), ES5 2 -/
-example : Model.run (goEngine (dG false false) (.ch (.lit 97))) [0xC3, 0xA9, 0x61] ⟨true, .int 0⟩ [.exec]
-    ≠ Spec.run (es5Engine (dE false false) (.ch (.lit 97))) (Str.unitsOfBytes [0xC3, 0xA9, 0x61]) Str.unitsOfBytes ⟨true, .int 0⟩ [.exec] := by decide
-/-- Dev `search_bytes`: "\u00e9a".search(/a/) is 2 -/
-example : Model.run (goEngine (dG false false) (.ch (.lit 97))) [0xC3, 0xA9, 0x61] ⟨false, .int 0⟩ [.search]
-    ≠ Spec.run (es5Engine (dE false false) (.ch (.lit 97))) (Str.unitsOfBytes [0xC3, 0xA9, 0x61]) Str.unitsOfBytes ⟨false, .int 0⟩ [.search] := by decide
 /-- Dev `astral_subject`: /^.$/ on U+1F600 (one code point, two code units) -/
 example : Model.run (goEngine (dG false false) (.seq .bol (.seq .dot .eol))) [0xF0, 0x9F, 0x98, 0x80] ⟨false, .int 0⟩ [.test]
     ≠ Spec.run (es5Engine (dE false false) (.seq .bol (.seq .dot .eol))) (Str.unitsOfBytes [0xF0, 0x9F, 0x98, 0x80]) Str.unitsOfBytes ⟨false, .int 0⟩ [.test] := by decide
 /-- Dev `lenient_syntax`: `a{,2}` is not an ES5 pattern; it is passed through and Go accepts it -/
 example : parsePattern false [97, 123, 44, 50, 125] = .err ∧ Model.transform (fun _ => false) [97, 123, 44, 50, 125] = .ok [97, 123, 44, 50, 125]
     ∧ parsePattern true [97, 123, 44, 50, 125] ≠ .err := by decide
-/-- Dev `empty_class`: `[]` is an ES5 pattern (matches nothing); Go rejects the unchanged text -/
-example : parsePattern false [91, 93] = .ok (.set false []) ∧ Model.transform (fun _ => false) [91, 93] = .ok [91, 93]
-    ∧ parsePattern true [91, 93] = .err := by decide
-/-- Dev `repeat_leading_zero`: `a{01}` is `a` once in ES5; Go reads `{01}` as four literal characters -/
-example : parsePattern false [97, 123, 48, 49, 125] = .ok (.quant (.ch (.lit 97)) (.rep [48, 49]) false) ∧
-    Model.transform (fun _ => false) [97, 123, 48, 49, 125] = .ok [97, 123, 48, 49, 125] ∧
-    parsePattern true [97, 123, 48, 49, 125] =
-      .ok (.seq (.ch (.lit 97)) (.seq (.ch (.lit 123)) (.seq (.ch (.lit 48)) (.seq (.ch (.lit 49)) (.ch (.lit 125)))))) := by decide
+/-- counts with leading zeros are in the proved subset: `a{01,003}` ↦ `a{1,3}` -/
+example : transform (fun _ => false) (printES5 (.quant (.ch (.lit 97)) (.repRange [48, 49] [48, 48, 51]) true)) =
+    .ok [97, 123, 49, 44, 51, 125, 63] := by
+  rw [transform_syntax _ _ (by decide)]; decide
 /-- Dev `repeat_limit`: `a{1001}` -/
 example : parsePattern false [97, 123, 49, 48, 48, 49, 125] ≠ .err ∧ parsePattern true [97, 123, 49, 48, 48, 49, 125] = .err := by decide
 end
